@@ -243,7 +243,9 @@ def run_check(prop, tier, seed):
            "exhaustive": True}
     machinery = []
     # ---- 1. exhaustive TLC on the specification
-    for fam in P["mc"]:
+    # (CIWVERIF_SKIP_MC=1, used only by tools/eval_seeds.sh: a change to the library cannot alter the outcome of
+    #  model checking the specification, so the seed evaluation skips this phase)
+    for fam in ([] if os.environ.get("CIWVERIF_SKIP_MC") else P["mc"]):
         for k, (scs, maxc) in enumerate(mc_instances(fam, tier)):
             cfgs = [tlc.cfg_of(copy.deepcopy(s)) for s in scs]
             r = tlc.run_mc(os.path.join(work, "mc_%s_%d" % (fam, k)), cfgs, ["NoCrash"] + P["inv"], P["step"],
